@@ -14,4 +14,5 @@ def run(tier):
     for name, f in fx.items():
         nio.restore_rule(run, f, "C18-RESTORE")
         nio.eagain_rule(run, f, "C18-EAGAIN")
+        nio.fresh_mode_rule(run, f, "C18-FRESH-MODE")
     return run.finish()
